@@ -36,9 +36,60 @@ def load_subs(prop_id):
     return mod, {s.name: s for s in mod.SUBCHECKS}
 
 
+def regress_files(prop):
+    import glob
+
+    return sorted(glob.glob(os.path.join(VERIF_DIR, "replays", prop, "*.json")) + glob.glob(os.path.join(VERIF_DIR, "regress", prop, "*.json")))
+
+
+def regress_main(args):
+    """replay tier: every saved input (open-finding replays and shrunk failures from sensitivity runs) as a plain regression check"""
+    from vlib import core
+
+    t0 = time.time()
+    devnull = open(os.devnull, "w")
+    sys.stdout = devnull
+    mod, subs = load_subs(args.prop)
+    known = core.load_known(args.prop)
+    found, known_hits, n, errors = [], {}, 0, []
+    for path in regress_files(args.prop):
+        try:
+            with open(path) as f:
+                rep = json.load(f)
+            sub = subs[rep["subcheck"]]
+            import signal
+
+            signal.signal(signal.SIGALRM, core._alarm_handler)
+            signal.alarm(sub.case_timeout[0] * 2)
+            try:
+                key, detail = core.run_replay(args.prop, sub, rep["case"], args.tier)
+            except core.HangAbort as h:
+                key, detail = f"{rep['subcheck']}:hang:{h.where}", "watchdog expired while replaying a saved input"
+            finally:
+                signal.alarm(0)
+            n += 1
+        except Exception as e:  # a saved input that no longer parses is a harness matter, never a violation
+            errors.append(f"{os.path.basename(path)}: {type(e).__name__}: {e}")
+            continue
+        if key is None:
+            continue
+        if key in known:
+            known_hits.setdefault(key, {"count": 0, "case": rep["case"], "detail": detail})["count"] += 1
+        elif key not in [v["key"] for v in found]:
+            found.append({"key": key, "detail": f"[saved input {os.path.relpath(path, VERIF_DIR)}] {detail}", "case": rep["case"]})
+    res = {"sub": "__replays__", "shard": 0, "shard_seed": 0, "examples": n, "distinct": n, "nontrivial_hashes": [], "events": {"saved-inputs-replayed": n},
+           "samples": [], "nontrivial_samples": [], "inconclusive": {}, "worst": {}, "extra": {}, "stat_tests": [], "violations": found,
+           "known_hits": known_hits, "harness_error": ("; ".join(errors) if errors else None), "wall_s": time.time() - t0}
+    with open(args.out, "w") as f:
+        json.dump(res, f, default=core._json_default)
+    return 0
+
+
 def worker_main(args):
     from vlib import core
 
+    if args.sub == "__replays__":
+        return regress_main(args)
     mod, subs = load_subs(args.prop)
     sub = subs[args.sub]
     # the library prints progress bars to stdout: discard them (results travel through the --out file)
@@ -124,6 +175,8 @@ def orchestrate(args):
         for sh in range(k):
             jobs.append((s.weight * per, n, sh, per))
     jobs.sort(key=lambda j: -j[0])  # longest first
+    if regress_files(prop) and not args.only:
+        jobs.insert(0, (1e18, "__replays__", 0, 0))
     env = dict(os.environ)
     env["PYTHONHASHSEED"] = "0"
     env["PYTHONPATH"] = VERIF_DIR + os.pathsep + env.get("PYTHONPATH", "")
